@@ -20,6 +20,7 @@ EXPLANATION = (
     "the `start` lookup and external names: emitted names are V<id>; (DUP) duplicate globals are reported on an occupied "
     "namespace entry."
     ' (LOOKUP qualified) the head of `x.f` is looked up like any name - locals first (known finding); (DECL-ORDER annotation-before-binder) type annotations are resolved before the binders they annotate are in scope.'
+    " (LOOKUP bypass) no direct read of the file's own table of globals yields a variable outside lookup(); (DECL-ORDER function-first) the binder is pushed before the value for function literals only."
 )
 UNDECIDED = "the renaming-invariance theorem itself (follows from SCOPE+LOOKUP+NAMES only together with determinism of id allocation, C16)."
 
